@@ -220,6 +220,7 @@ def plan_runs(rng, pkg):
 
 def run(ctx):
     ctx.prove(["Props/C06.vo", "Run/eval_C06.vo"])
+    import extractlib; extractlib.tables_tie(ctx, ['parse.argTypes'])   # literal data of the source re-proved equal to the models' (DESIGN 3.5)
     ctx.trusted_base += [
         "checks/c06.py + lib/c06gen.py (declaration generator, renderer to Go files, printer to Coq terms, output parsers, oracle)",
         "lib/projlib.py (project layout, probe package, CALL parser), harness/docview (go/parser + go/doc only)",
